@@ -79,6 +79,9 @@ def make_class(rng, fields, rename_p=0.3, defaults=False, name=None):
             ft = _arr_type(sn, dims)
         elif kind == "nested":
             ft = sub["cls"]
+            if defaults and rng.random() < 0.3:
+                # a declared dictionary default for the nested part (used only when the part is not given at all)
+                ft = xo.Field(sub["cls"]._XoStruct, default=to_xo_dict(sub, ValGenH(rng).value(sub)))
         elif kind == "ref":
             ft = xo.Ref[sub["cls"]]
         dflt = None
